@@ -2,7 +2,7 @@ from rpc_common import *  # noqa
 import rpc_common as rc
 
 ID = "C06"
-LEVEL = "other"
+LEVEL = "proof"
 COQ_TARGETS = ["Props/Properties_C06.vo"] + rc.COQ_COMMON
 PROPS_FILES = ["Props/Properties_C06.v"]
 RUNS = [rc.run("rpc", "s,v", salt=6)]
@@ -15,24 +15,33 @@ def violates(run, case, impl, model):
     in which the local servers see calls, and the results seen by local callers are the machine's."""
     if rc.crashed(impl):
         return True
-    n, ev, i, m = rc.first_diff(case, impl, model)
-    im, idl, iap, _ = rc.parts(i)
-    mm, mdl, map_, _ = rc.parts(m)
-    pick = lambda ms: sorted(re.sub(r",.*", "", x) for x in ms if x[0] in "RBCF")
-    return pick(im) != pick(mm) or idl != mdl or iap != map_
+    # every step, not only the first difference: a lost Disembargo (not itself a C06 message) shows as a
+    # different delivery order some events later
+    _, io, mo = rc.steps(case, impl, model)
+    pick = lambda ms: sorted(re.sub(r",.*", "", x) for x in ms if x[0] in "RBCFD")
+    for k in range(max(len(io), len(mo))):
+        im, idl, iap, _ = rc.parts(io[k] if k < len(io) else "")
+        mm, mdl, map_, _ = rc.parts(mo[k] if k < len(mo) else "")
+        if pick(im) != pick(mm) or idl != mdl or iap != map_:
+            return True
+    return False
 
 
-LEVEL_TEXT = ("Other (history-level proofs of one_return and of the first half of question_ids + differential run): proved for "
-              "ALL histories of the machine of rpc.Conn -- for every answer id the Returns in the outbox never exceed the "
-              "Bootstrap/Call messages accepted with it, and while the connection is up they are equal except for the at most "
-              "one answer that still owes its Return (C06_one_return, by a balance invariant through every handler, with the "
-              "answer table / queue invariants it needs); the Return sent when a local server returns carries that outcome "
-              "(results vs exception, C06_return_is_targets); every Bootstrap/Call sent with a question id is matched by a Finish "
-              "for it except the current use, and newQuestion hands out only ids whose slot is empty, so an id is never "
-              "re-issued before its Finish is in the outbox (C06_question_ids, C06_new_question_is_free); no handler panics or "
-              "blocks, in particular a Call pipelined on an unreturned answer (F14 refuted on the pre-fix machine). NOT proved: "
-              "'each local call resolves exactly once' at history level and delivery_order (T2); both are covered by the "
-              "differential run (scenarios + valid stream: pipelining on returned and unreturned answers, returns before/after "
-              "later messages, embargo, cancel, id reuse; compared: Returns, ids, order seen by the instrumented servers, results "
-              "seen by local callers, table occupancy). Found and repaired: F14, F23.")
-LEVEL_NOTE = "See coq/Props/Properties_C06.v for the full statements and what is missing at each theorem."
+LEVEL_TEXT = ("Proof (all T1 theorems at history level; the stretch theorem delivery_order, T2, is NOT proved and is covered by the "
+              "differential run only): proved for ALL histories of the machine of rpc.Conn -- for every answer id the Returns in "
+              "the outbox never exceed the Bootstrap/Call messages accepted with it, and while the connection is up they are "
+              "equal except for the at most one answer that still owes its Return (C06_one_return, by a balance invariant "
+              "through every handler); the Return sent when a local server returns carries that outcome (C06_return_is_targets); "
+              "every Bootstrap/Call sent with a question id is matched by a Finish for it except the current use, and newQuestion "
+              "hands out only ids whose slot is empty, so an id is never re-issued before its Finish is in the outbox "
+              "(C06_question_ids, C06_new_question_is_free); every local call resolves exactly once: at every point of every "
+              "history, through shutdown, a call number that was handed out has exactly one of {a resolution in the outbox, an "
+              "unfinished question, a running direct delivery, a place behind an embargo}, so it is never resolved twice, never "
+              "lost, and after shutdown no question holds a call (C06_call_resolves_once, C06_shut_calls_resolved); no handler "
+              "panics or blocks, in particular a Call pipelined on an unreturned answer (F14 refuted on the pre-fix machine). "
+              "delivery_order is modelled (drain, eff_parent, wake_calls) and compared by the differential run (scenarios + "
+              "valid stream + window histories in which a second event arrives inside a handler: a Return overtaking a pipelined "
+              "Call, a pipelined call arriving during an answer-queue drain): Returns, ids, Disembargo, order seen by the "
+              "instrumented servers, results seen by local callers, table occupancy. Found and repaired: F14, F23, F27.")
+LEVEL_NOTE = ("delivery_order (T2, stretch) is not proved: differential run only. question_ids first half is stated for a connection that is up. "
+              "See coq/Props/Properties_C06.v for the full statements.")
